@@ -85,15 +85,18 @@ Definition item_eqb (x y : item) : bool :=
 
 (** * The text of the harness' resources *)
 
-(* 'a' 'é' ' ' '漢' 'b' '😀' 'c', repeated *)
-Definition ALPHA : list N := [97; 233; 32; 28450; 98; 128512; 99]%N.
-Definition char_at (i : nat) : N := nth (i mod 7) ALPHA 0%N.
+(* The C08 harness gives a resource of n codepoints the text made of the first n characters of
+   'a' 'é' ' ' '漢' 'B' '😀' 'c' 'É' 'b' repeated (lower and upper case, ASCII and not, 1-4 byte
+   characters); the store model only knows the length. *)
+Definition ALPHA : list N := [97; 233; 32; 28450; 66; 128512; 99; 201; 98]%N.
+Definition char_at (i : nat) : N := nth (i mod 9) ALPHA 0%N.
 Definition text_of (b e : nat) : list N := map char_at (seq b (e - b)).
 Definition is_ws (c : N) : bool := N.eqb c 32.
 Definition ws_of_len (n : nat) : list bool := map (fun i => is_ws (char_at i)) (seq 0 n).
 
-(* str::to_lowercase on the characters that occur (ASCII letters; the others have no case) *)
-Definition lower_str (t : list N) : list N := map lower t.
+(* char::to_lowercase on the characters that occur: ASCII letters and 'É' (the others have no case) *)
+Definition lower_c (c : N) : N := if N.eqb c 201 then 233%N else lower c.
+Definition lower_str (t : list N) : list N := map lower_c t.
 
 (** * Looking items up by public id (scan) *)
 
@@ -164,6 +167,18 @@ Fixpoint ins_rbe (x : nat * nat * nat) (l : list (nat * nat * nat)) :=
   | y :: l' => if rbe_ltb y x then y :: ins_rbe x l' else x :: l
   end.
 Definition sort_rbe (l : list (nat * nat * nat)) := fold_right ins_rbe [] l.
+
+(* (resource, begin, end) triples by begin, end, resource *)
+Definition ber_ltb (x y : nat * nat * nat) : bool :=
+  let '(r, b, e) := x in let '(r', b', e') := y in
+  if b <? b' then true else if b' <? b then false
+  else if e <? e' then true else if e' <? e then false else r <? r'.
+Fixpoint ins_ber (x : nat * nat * nat) (l : list (nat * nat * nat)) :=
+  match l with
+  | [] => [x]
+  | y :: l' => if ber_ltb y x then y :: ins_ber x l' else x :: l
+  end.
+Definition sort_ber (l : list (nat * nat * nat)) := fold_right ins_ber [] l.
 
 (* stored order: Multi/Composite selectors keep their text leaves in textual order per
    resource, Directional ones as given *)
@@ -465,12 +480,12 @@ Definition universe (s : store) (rt : rtype) : list item :=
                                | None => []
                                end) (sets_of s)
   | TText =>
-      (* the text selections some live annotation refers to, each once, in textual order
-         (begin, end) per resource *)
+      (* the text selections some live annotation refers to, each once, in textual order: by
+         begin and end, selections with the same offsets by resource (textual_order()) *)
       let all := flat_map (fun h => match get_ann s h with Some a => ann_texts s a | None => [] end)
                           (seq 0 (length (anns s))) in
       map (fun t => IText (fst (fst t)) (snd (fst t)) (snd t))
-          (fold_right (fun t acc => if existsb (rbe_eqb t) acc then acc else t :: acc) [] (sort_rbe all))
+          (fold_right (fun t acc => if existsb (rbe_eqb t) acc then acc else t :: acc) [] (sort_ber all))
   end.
 
 (** * Queries *)
@@ -539,9 +554,10 @@ Definition target_of (it : item) : sbuild :=
   | IKey d k => BKey (ByHandle d) (ByHandle k)
   end.
 
-(* ADD ANNOTATION WITH [ID id;] DATA set key value; ... TARGET ?x; { sub }:
+(* ADD ANNOTATION WITH [ID id;] DATA set key value; ... TARGET ?x [OFFSET b e]; { sub }:
    one annotate per row of the sub-query, targeting the row's item named x *)
-Record addq := mkadd { add_id : option nat; add_data : list (nat * nat * value); add_target : nat; add_sub : query }.
+Record addq := mkadd { add_id : option nat; add_data : list (nat * nat * value); add_target : nat;
+                       add_sub : query; add_off : option offset }.
 
 (* the names a row binds, outermost first *)
 Fixpoint names_of (q : query) : list nat :=
@@ -550,8 +566,22 @@ Fixpoint names_of (q : query) : list nat :=
 Definition row_item (names : list nat) (row : list item) (v : nat) : option item :=
   lookup (combine names row) v.
 
-Definition add_builder (a : addq) (it : item) : abuild :=
-  mkab (add_id a) (Some (target_of it))
+(* TARGET ?x OFFSET b e: on a text selection the offset is relative to it (resolved when the
+   builders are made: None = it does not resolve), on an annotation it is handed to annotate();
+   other items ignore it *)
+Definition target_off (s : store) (it : item) (o : option offset) : option sbuild :=
+  match it, o with
+  | IText r b e, Some off =>
+      match findtext_sel_ts (res_len s r) (b, e) off with
+      | Ok (b', e') => Some (BText (ByHandle r) (mkoff (CB b') (CB e')))
+      | Err => None
+      end
+  | IAnn a, Some off => Some (BAnn (ByHandle a) (Some off))
+  | _, _ => Some (target_of it)
+  end.
+
+Definition add_builder (a : addq) (tg : sbuild) : abuild :=
+  mkab (add_id a) (Some tg)
        (map (fun dkv => mkdb (ById (fst (fst dkv))) None (Some (ById (snd (fst dkv)))) (snd dkv)) (add_data a)).
 
 (* annotate_from_iter: stops at the first failure *)
@@ -564,35 +594,45 @@ Fixpoint annotate_all (s : store) (l : list abuild) : store * out :=
                end
   end.
 
-(* rows whose target variable is not bound (an OPTIONAL level without result) make the query fail
-   before anything is added *)
-Definition add_builders (a : addq) (rows : list (list item)) : option (list abuild) :=
+(* rows whose target variable is not bound (an OPTIONAL level without result) or whose OFFSET does
+   not resolve make the query fail before anything is added *)
+Definition add_builders (s : store) (a : addq) (rows : list (list item)) : option (list abuild) :=
   let names := names_of (add_sub a) in
   fold_right (fun row acc =>
                 match acc, row_item names row (add_target a) with
-                | Some l, Some it => Some (add_builder a it :: l)
+                | Some l, Some it => match target_off s it (add_off a) with
+                                     | Some tg => Some (add_builder a tg :: l)
+                                     | None => None
+                                     end
                 | _, _ => None
                 end) (Some []) rows.
 
 (* query_mut for ADD, given the rows its sub-query produced *)
 Definition exec_add (s : store) (a : addq) (rows : list (list item)) : store * out :=
-  match add_builders a rows with
+  match add_builders s a rows with
   | Some bs => annotate_all s bs
   | None => (s, OErr)
   end.
 
-(* DELETE ANNOTATION ?x { sub }: remove every selected annotation that is still there (what a
-   removal takes with it is gone already when its turn comes) *)
-Definition exec_delete (s : store) (x : nat) (sub : query) (rows : list (list item)) : store :=
+(* DELETE ANNOTATION ?x { sub }: every row must bind x (else the query fails and nothing is
+   removed); then every selected annotation that is still there is removed (what a removal takes
+   with it is gone already when its turn comes) *)
+Definition delete_handles (x : nat) (sub : query) (rows : list (list item)) : option (list nat) :=
   let names := names_of sub in
-  fold_left (fun s row =>
-               match row_item names row x with
-               | Some (IAnn a) => match get_ann s a with
-                                  | Some _ => fst (rm_annotation s (ByHandle a))
-                                  | None => s
-                                  end
-               | _ => s
-               end) rows s.
+  fold_right (fun row acc =>
+                match acc, row_item names row x with
+                | Some l, Some (IAnn a) => Some (a :: l)
+                | _, _ => None
+                end) (Some []) rows.
+
+Definition exec_delete (s : store) (x : nat) (sub : query) (rows : list (list item)) : store * out :=
+  match delete_handles x sub rows with
+  | Some hs => (fold_left (fun s a => match get_ann s a with
+                                       | Some _ => fst (rm_annotation s (ByHandle a))
+                                       | None => s
+                                       end) hs s, OOk 0)
+  | None => (s, OErr)
+  end.
 
 (** * The evaluator as far as it is modelled: dispatch tables, the two places where an
    implementation route has another meaning than the constraint, and the state machine of
@@ -1190,7 +1230,8 @@ Definition has_higher_order (s : store) : bool :=
 Definition noncanon (rt : rtype) (cs : list cst) : bool :=
   match cs with
   | CUnion _ :: _ => true
-  | CAnn _ false :: _ => match rt with TAnn | TData => true | _ => false end
+  | CAnn _ false :: _ => match rt with TAnn | TData | TText => true | _ => false end
+  | (CAnn _ true | CRes _ _ | CRel _ _ | CText _ _ | CTextVar _) :: _ => match rt with TText => true | _ => false end
   | _ => false
   end.
 Fixpoint limit_order (q : query) : bool :=
